@@ -120,6 +120,11 @@ func (c *wireCluster) StreamWorkflowReplicationMessages(st adminservice.AdminSer
 
 // target role: this cluster's shard initiates its stream through the proxy
 func (c *wireCluster) runTarget(ctx context.Context, proxyAddr string, shard int) {
+	c.runTargetInc(ctx, proxyAddr, shard, 1)
+}
+
+// runTargetInc: the inc-th incarnation of this shard's target stream (a stream that moved to another instance)
+func (c *wireCluster) runTargetInc(ctx context.Context, proxyAddr string, shard, inc int) {
 	conn, err := grpc.NewClient(proxyAddr, grpc.WithTransportCredentials(insecure.NewCredentials()))
 	if err != nil {
 		return
@@ -132,7 +137,7 @@ func (c *wireCluster) runTarget(ctx context.Context, proxyAddr string, shard int
 	if err != nil {
 		return
 	}
-	stream := fmt.Sprintf("%s#1", c.name(shard))
+	stream := fmt.Sprintf("%s#%d", c.name(shard), inc)
 	c.recd.Mark("TGT_OPEN", stream)
 	var mu sync.Mutex
 	high, got := int64(-1), false
@@ -161,7 +166,7 @@ func (c *wireCluster) runTarget(ctx context.Context, proxyAddr string, shard int
 	for {
 		m, err := st.Recv()
 		if err != nil {
-			if err != io.EOF {
+			if err != io.EOF || inc > 1 || ctx.Err() != nil {
 				c.recd.Mark("TGT_END", stream)
 			}
 			return
